@@ -3,7 +3,7 @@ from core import Loc, Path
 from engine import RuleResult, MAIN, LEFT, OLD, CURSOR, in_macro
 from rules_protocol import hb_calls, HBT, HBI, between_blocks, is_user_drop
 from rules_typestate import (movers, replacer_sites, installs_left, typestate, self_s_prefix, is_self_left, is_self_s, left_test_edges,
-                             N, S, TOP, BOT, OPT, ret_is_some_fns)
+                             N, S, TOP, BOT, OPT, ret_is_some_fns, old_empty_edges)
 from symexec import api_of
 
 
@@ -635,4 +635,266 @@ def rule_f_diff(ctx):
         if path not in ctx.facts.bodies:
             R.viol("%s:missing" % path, "-", "body exists only in the release configuration")
     R.notes.append("%d bodies compared" % n)
+    return R
+
+
+# ---------------------------------------------------------------------------
+# M-keep / T-drop: tables that hold elements are never dropped wholesale outside the operations that are meant to
+# ---------------------------------------------------------------------------
+def _flag_locals(b):
+    """bool locals that are only ever assigned constants (drop flags and the like)"""
+    out = set()
+    for l, ds in b.defs().items():
+        if b.local_ty(l).get("k") != "bool" or not ds:
+            continue
+        if all(d[1] == "assign" and d[2]["rv"]["k"] == "use" and d[2]["rv"]["op"]["k"] == "const" and "val" in d[2]["rv"]["op"] for d in ds):
+            out.add(l)
+    return out
+
+
+def _len_zero_edges(ctx, b, holders):
+    """{(bb, succ): True|False} for switches on `X.len() == 0` / `!= 0` / `X.is_empty()` where X is one of the given locals"""
+    out = {}
+    for bb in b.reachable():
+        t = b.term(bb)
+        if t["k"] != "switch":
+            continue
+        d = b.source_def(t["discr"])
+        if d is None:
+            continue
+        empty_if_true = None
+        if d[1] == "assign" and d[2]["rv"]["k"] == "binop" and d[2]["rv"]["op"] in ("Eq", "Ne"):
+            rv = d[2]["rv"]
+            for x, y in ((rv["a"], rv["b"]), (rv["b"], rv["a"])):
+                if b.op_const(y) == 0:
+                    sd = b.source_def(x)
+                    if sd is not None and sd[1] == "call":
+                        c = ctx.call_at(b, sd[0].bb)
+                        p = c.arg_path(0)
+                        if c.tname == HBT + "len" and p is not None and p.root in holders and not p.fields():
+                            empty_if_true = (rv["op"] == "Eq")
+        elif d[1] == "call":
+            c = ctx.call_at(b, d[0].bb)
+            p = c.arg_path(0)
+            if c.tname == HBT + "is_empty" and p is not None and p.root in holders and not p.fields():
+                empty_if_true = True
+        if empty_if_true is None:
+            continue
+        for v, tb in t["targets"]:
+            if tb != t["otherwise"] and v == 0:
+                out[(bb, tb)] = not empty_if_true
+        out[(bb, t["otherwise"])] = empty_if_true
+    return out
+
+
+def _dropped_nonempty(ctx, b, start_bb, first_holder):
+    """Search a normal path from start_bb on which the table held in local first_holder (or in a local / wrapper it is moved to) is
+    dropped, or handed by value to something that is not an owning iterator, without having been found empty and without having
+    been stored as the old table.  Returns (path, what) or None."""
+    ro = ctx.roles
+    flags = _flag_locals(b)
+    # all locals the table may travel through (for the emptiness tests)
+    zero_edges = _len_zero_edges(ctx, b, set(range(len(b.locals))))
+    seen = set()
+    st = [(start_bb, frozenset([first_holder]), False, (), [start_bb])]
+    while st:
+        x, holders, empty, env, path = st.pop()
+        key = (x, holders, empty, env)
+        if key in seen or not holders or b.is_cleanup(x):
+            continue
+        seen.add(key)
+        envd = dict(env)
+        holders = set(holders)
+        for s_ in b.stmts(x):
+            if s_["k"] != "assign":
+                continue
+            pl = s_["place"]
+            rv = s_["rv"]
+            if not pl["proj"] and pl["local"] in flags and rv["k"] == "use" and rv["op"]["k"] == "const":
+                envd[pl["local"]] = rv["op"].get("val")
+            moved = []
+            if rv["k"] == "use" and rv["op"]["k"] == "move" and not rv["op"]["place"]["proj"] and rv["op"]["place"]["local"] in holders:
+                moved = [rv["op"]["place"]["local"]]
+                holders.discard(moved[0])
+                if not pl["proj"]:
+                    holders.add(pl["local"])
+                elif ro.is_main_place(b.expand(pl)) or ro.is_old_place(b.expand(pl)):
+                    pass          # put (back) into a table slot of the map
+                else:
+                    holders.add(pl["local"])
+            elif rv["k"] == "aggregate":
+                for o in rv["ops"]:
+                    if o["k"] == "move" and not o["place"]["proj"] and o["place"]["local"] in holders:
+                        holders.discard(o["place"]["local"])
+                        if rv.get("adt") == ro.O:
+                            pass      # stored as the old table of a pending resize: its elements stay in the map
+                        elif not pl["proj"]:
+                            holders.add(pl["local"])
+        t = b.term(x)
+        k = t["k"]
+        if k == "return":
+            continue
+        if k == "drop":
+            dp = t["place"]
+            if not dp["proj"] and dp["local"] in holders:
+                if not empty:
+                    return path, "dropped at %s" % b.where(Loc(x, len(b.stmts(x))))
+                holders.discard(dp["local"])
+        if k == "call":
+            c = ctx.call_at(b, x)
+            for a in c.args:
+                if a["k"] == "move" and not a["place"]["proj"] and a["place"]["local"] in holders:
+                    holders.discard(a["place"]["local"])
+                    if c.tname in (HBT + "into_iter", HBT + "into_iter_from"):
+                        continue
+                    if c.name in ("core::mem::replace", "core::mem::swap"):
+                        q = c.arg_path(0)
+                        if q is not None and (ro.is_main_place(ctx.resolve(b, q)[1]) or ro.is_old_place(ctx.resolve(b, q)[1])):
+                            continue
+                    if not empty:
+                        return path, "handed by value to %s at %s" % (c.tname or "<indirect>", c.where())
+        succs = list(b.succs(x))
+        if k == "switch":
+            pd = b.op_path(t["discr"])
+            if pd is not None and not pd.elems and pd.root in envd and envd[pd.root] is not None:
+                tg = [tb for v, tb in t["targets"] if v == envd[pd.root]]
+                succs = [tg[0]] if tg else [t["otherwise"]]
+            elif t["discr"]["k"] in ("copy", "move") and not t["discr"]["place"]["proj"] and t["discr"]["place"]["local"] in envd:
+                v0 = envd[t["discr"]["place"]["local"]]
+                tg = [tb for v, tb in t["targets"] if v == v0]
+                succs = [tg[0]] if tg else [t["otherwise"]]
+        for s_ in succs:
+            e2 = empty
+            ze = zero_edges.get((x, s_))
+            if ze is True:
+                e2 = True
+            st.append((s_, frozenset(holders), e2, tuple(sorted(envd.items())), path + [s_]))
+    return None
+
+
+def rule_m_keep(ctx):
+    R = RuleResult("M-keep", "the table taken out of the main slot when a bigger one is installed is stored as the old table of the pending resize, or "
+                   "dropped only after it was found empty, on every non-panicking path (also early error returns): its elements are never dropped "
+                   "wholesale; the main slot itself is never overwritten in place")
+    for b, loc, c in replacer_sites(ctx):
+        if c is None:
+            R.inst(fn=b.path, site=b.where(loc), verdict="VIOLATION")
+            R.viol("%s:assign" % b.path, b.where(loc), "the main table is overwritten in place: the table that was there is dropped with every element it holds (unproven empty)")
+            continue
+        holder = None
+        if c.name in ("core::mem::replace", "core::mem::take"):
+            holder = c.dest["local"] if c.dest is not None and not c.dest["proj"] else None
+        elif c.name == "core::mem::swap":
+            for i in (0, 1):
+                q = c.arg_path(i)
+                if q is not None and not ctx.roles.is_main_place(ctx.resolve(b, q)[1]) and not q.fields():
+                    holder = q.root
+        if holder is None or c.target is None:
+            R.inst(fn=b.path, site=c.where(), verdict="VIOLATION")
+            R.viol("%s:shape" % b.path, c.where(), "cannot tell where the previous main table goes (unproven)")
+            continue
+        w = _dropped_nonempty(ctx, b, c.target, holder)
+        R.inst(fn=b.path, site=c.where(), previous_main="_%d" % holder, verdict="ok" if w is None else "VIOLATION")
+        if w is not None:
+            R.viol("%s:previous-main" % b.path, c.where(), "the table taken out of the main slot at %s can be %s without having been found empty or stored as the "
+                   "old table (path %s): every element it holds would be dropped by an operation that is not meant to remove anything"
+                   % (c.where(), w[1], w[0]))
+    R.floor(1, "sites that replace the main table")
+    return R
+
+
+WHOLESALE = {HBT + "clear", HBT + "clone_from", HBT + "clone_from_with_hasher", HBT + "clear_no_drop", HBT + "drain"}
+
+
+def rule_t_drop(ctx):
+    R = RuleResult("T-drop", "a pending old table is only discarded (LEFT := None with the previous value dropped) when it is known to hold nothing — on the "
+                   "empty edge of a test of its length, or after its cursor ran out — or in an operation that empties or overwrites the whole map "
+                   "(clear, clone_from), or when the value taken out is handed on (drain) rather than dropped")
+    ts = typestate(ctx)
+    for b in ts.bodies:
+        ee = old_empty_edges(ctx, b)
+        sites = []
+        for c in ctx.calls(b):
+            if b.is_cleanup(c.loc.bb):
+                continue
+            if c.name in (OPT + "take", "core::mem::take") and is_self_left(ctx, b, c.arg_path(0)):
+                # is the taken value used (handed on), or just dropped?
+                used = False
+                if c.dest is not None and not c.dest["proj"]:
+                    dl = c.dest["local"]
+                    for loc2, st2 in b.all_assigns():
+                        rv = st2["rv"]
+                        ops = [rv.get("op")] + list(rv.get("ops", []))
+                        if any(isinstance(o, dict) and o.get("k") == "move" and o["place"]["local"] == dl for o in ops) and not b.is_cleanup(loc2.bb):
+                            used = True
+                    for c2 in ctx.calls(b):
+                        if c2.loc != c.loc and any(a["k"] == "move" and a["place"]["local"] == dl for a in c2.args) \
+                                and c2.name not in ("core::mem::drop",) and not b.is_cleanup(c2.loc.bb):
+                            used = True
+                sites.append((c.loc, "take", used))
+            if c.name == "core::mem::replace" and is_self_left(ctx, b, c.arg_path(0)):
+                sites.append((c.loc, "replace", False))
+        for loc, st in b.all_assigns():
+            if b.is_cleanup(loc.bb) or not st["place"]["proj"]:
+                continue
+            if is_self_left(ctx, b, b.expand(st["place"])):
+                from rules_typestate import _opt_value_state
+                rv = st["rv"]
+                v = None
+                if rv["k"] == "aggregate" and rv.get("adt") == "core::option::Option":
+                    v = rv["variant"]
+                elif rv["k"] == "use":
+                    v = {N: "None", S: "Some"}.get(_opt_value_state(b, rv["op"]))
+                if v == "None":
+                    sites.append((loc, "assign None", False))
+        if not sites:
+            continue
+        wholesale = any(c.tname in WHOLESALE and ctx.role(b, c.arg_path(0)) == MAIN for c in ctx.calls(b) if not b.is_cleanup(c.loc.bb))
+        # edges on which the old table is known to hold nothing
+        ok_edges = {e for e, v in ee.items() if v is True}
+        for c in ctx.calls(b):
+            if c.tname == HBI + "next" and ctx.role(b, c.arg_path(0)) == CURSOR and c.dest is not None and not b.is_cleanup(c.loc.bb):
+                from rules_typestate import option_test_edges
+                dl = c.dest["local"]
+                ok_edges |= {e for e, v in option_test_edges(ctx, b, lambda p, dl=dl: p.root == dl and not p.fields(), ignore_debug=False).items() if v == N}
+        from rules_typestate import takers, option_test_edges as ote
+        tk = takers(ctx)
+        for c in ctx.calls(b):
+            lc = c.local_callee()
+            if lc is not None and lc.path in tk and c.dest is not None and not b.is_cleanup(c.loc.bb):
+                # a helper that takes the cursor's next element out of the old table: its None means the cursor ran out
+                dl = c.dest["local"]
+                ok_edges |= {e for e, v in ote(ctx, b, lambda p, dl=dl: p.root == dl and not p.fields(), ignore_debug=False).items() if v == N}
+        # entering the function with no old table pending also makes the discard vacuous
+        left_edges = left_test_edges(ctx, b, ignore_debug=False)
+        ok_edges |= {e for e, v in left_edges.items() if v == N}
+        for loc, how, used in sites:
+            key = "%s:%s" % (b.path, how.replace(" ", "-"))
+            if used:
+                R.inst(fn=b.path, site=b.where(loc), how=how, verdict="ok: the old table is handed on, not dropped")
+                continue
+            if wholesale:
+                R.inst(fn=b.path, site=b.where(loc), how=how, verdict="ok: the operation empties or overwrites the whole map")
+                continue
+            # every path from the entry to the discard crosses an ok edge
+            seen = set()
+            stack = [(0, [0])]
+            w = None
+            while stack and w is None:
+                x, p = stack.pop()
+                if x in seen:
+                    continue
+                seen.add(x)
+                if x == loc.bb:
+                    w = p
+                    break
+                for s_ in b.succs(x):
+                    if (x, s_) in ok_edges:
+                        continue
+                    stack.append((s_, p + [s_]))
+            R.inst(fn=b.path, site=b.where(loc), how=how, verdict="ok: only when the old table holds nothing" if w is None else "VIOLATION")
+            if w is not None:
+                R.viol(key, b.where(loc), "the pending old table is discarded (%s) on a path (%s) where it is not known to be empty: the elements still waiting "
+                       "in it would be dropped" % (how, " -> ".join("bb%d" % x for x in w)))
+    R.floor(3, "sites that discard the old table")
     return R
